@@ -1460,6 +1460,11 @@ impl<'s, K: Kind<X>, X: Item> VecExec<'s, K, X> {
                 let out = guard_nopanic(op.k.name(), 0, 0, move || {
                     let f = |mut acc: Vec<X>, x: X| {
                         acc.push(x);
+                        if acc.len() > n + 2 {
+                            // an iterator that never ends must not keep the run alive
+                            tok::raise(V6_LENGTH, format!("fold was handed more than {} elements", n));
+                            std::panic::panic_any(Injected);
+                        }
                         acc
                     };
                     if back {
